@@ -1,10 +1,14 @@
 From Coq Require Import ZArith NArith List Bool.
-From GoCoap Require Import Base.Cases Base.Bytes Retx.Model Retx.Spec.
+From GoCoap Require Import Base.Cases Base.Bytes Retx.Model Retx.ModelMid Retx.Spec.
 Import ListNotations.
 Open Scope Z_scope.
 
 (* one event with what was observed on the implementation *)
-Inductive hev := HE (e : ev) (em : list oemit) (ret : list (Z * Z * Z)).
+(* HM: a request issued with a message ID chosen by the application (by name: the ID of request [mid], or a
+   fresh one when no request has that number) *)
+Inductive hev :=
+| HE (e : ev) (em : list oemit) (ret : list (Z * Z * Z))
+| HM (id : Z) (tok : list Z) (dl : option Z) (mid : Z) (em : list oemit) (ret : list (Z * Z * Z)).
 Inductive case := Hist (ack maxrt nst : Z) (h : list hev).
 
 Definition emit_key (e : emit) : Z := match e with Copy id => 2 * id | BareAck p => 2 * p + 1 end.
@@ -25,31 +29,36 @@ Definition ret_key (r : Z * Z * Z) : Z := fst (fst r).
 Definition ret_eqb (a b : Z * Z * Z) : bool :=
   let '(i, x, c) := a in let '(i', x', c') := b in (i =? i') && (x =? x') && (c =? c').
 
-Definition obs_agrees (o : obs) (e : hev) : bool :=
-  match e with HE _ em ret =>
-    list_rel emit_agrees (sort_by emit_key (o_emit o)) (sort_by oemit_key em) &&
-    list_rel ret_eqb (sort_by ret_key (o_ret o)) (sort_by ret_key ret)
-  end.
+Definition obs_agrees (o : obs) (em : list oemit) (ret : list (Z * Z * Z)) : bool :=
+  list_rel emit_agrees (sort_by emit_key (o_emit o)) (sort_by oemit_key em) &&
+  list_rel ret_eqb (sort_by ret_key (o_ret o)) (sort_by ret_key ret).
 
-Fixpoint hist_agrees (c : cfg) (s : st) (h : list hev) : bool :=
+Definition hev_ev (e : hev) : mev := match e with HE e0 _ _ => Base e0 | HM id tok dl m _ _ => SendM id tok dl m end.
+Definition hev_em (e : hev) : list oemit := match e with HE _ em _ | HM _ _ _ _ em _ => em end.
+Definition hev_ret (e : hev) : list (Z * Z * Z) := match e with HE _ _ r | HM _ _ _ _ _ r => r end.
+
+(* the model the implementation is compared with is the message-ID keyed one (Retx/ModelMid.v) *)
+Fixpoint hist_agrees (c : cfg) (s : mst) (h : list hev) : bool :=
   match h with
   | [] => true
-  | (HE e _ _ as he) :: r => let '(s1, o) := step c s e in obs_agrees o he && hist_agrees c s1 r
+  | he :: r => let '(s1, o) := mstep c s (hev_ev he) in obs_agrees o (hev_em he) (hev_ret he) && hist_agrees c s1 r
   end.
 
 Definition agrees (c : case) : bool :=
-  match c with Hist a m n h => hist_agrees {| ack_ms := a; max_rt := m; nstart := n |} init h end.
+  match c with Hist a m n h => hist_agrees {| ack_ms := a; max_rt := m; nstart := n |} minit h end.
 
 Definition to_oev (e : hev) : oev :=
-  match e with HE ev0 em ret =>
-    {| k := match ev0 with
+  {| k := match hev_ev e with
+          | SendM id _ dl m => KSendM id dl m
+          | Base ev0 =>
+            match ev0 with
             | Send id _ dl => KSend id dl | Age ms => KAge ms | Tick => KTick | Ack id => KAck id | Rst id => KRst id
-            | Piggy id c => KPiggy id c | Sep id c _ => KSep id c | Cancel id => KCancel id end;
-       em := em; ret := ret |}
-  end.
+            | Piggy id c => KPiggy id c | Sep id c _ => KSep id c | Cancel id => KCancel id end
+          end;
+     em := hev_em e; ret := hev_ret e |}.
 
 Definition pclass (c : case) : N :=
-  match c with Hist a m _ h => c06_class a m (map to_oev h) end.
+  match c with Hist a m n h => c06_class a m n (map to_oev h) end.
 
 Definition mismatches (cs : list case) : list N := bad_indices (fun c => negb (agrees c)) cs.
 Definition property_failures (cs : list case) : list (N * N) := classes pclass cs.
